@@ -285,6 +285,25 @@ def oracleStation (want : String) (o : OSt) (op obs : String) : OSt × Fail :=
                some ("C13", s!"new message cycle started at {now} although the target rotation time since the previous token receipt ({t0}) has elapsed") else none
            | none => none),
           (if hp1 ∧ o.hpUsedThisVisit then some ("C13", "more than one message cycle after the hold time was over") else none)]
+      -- ---------------------------------------------------------------- C06 (station level)
+      let c06 : Fail :=
+        if want ≠ "C06" then none else
+        first [
+          -- claim_on_silence: silent for the own time-out while listening / idle ⇒ this poll claims
+          (match o.lastActivity with
+           | some l =>
+             if (prevSt = "ListenToken" ∨ prevSt = "ActiveIdle") ∧ ¬ early ∧ ¬ noticed ∧
+                (now - l).natAbs ≥ o.p.tokenLostTimeout ∧ r.st ≠ "ClaimToken" ∧ r.st ≠ "UseToken" ∧ r.st ≠ "PassToken" then
+               some ("C06", s!"bus silent for {(now - l).natAbs} us ≥ time-out {o.p.tokenLostTimeout} but the station did not claim the token (state {r.st})")
+             else none
+           | none => none),
+          -- undecodable data alone never changes the FDL state of a waiting station
+          (if (prevSt = "ListenToken" ∨ prevSt = "ActiveIdle") ∧ consumedLen > 0 ∧ delivered.isEmpty ∧ r.tx.isNone ∧
+              r.st ≠ prevSt ∧ r.st ≠ "ClaimToken" then
+             some ("C06", s!"undecodable data changed the FDL state {prevSt} → {r.st}") else none),
+          -- back-off: an unexpected telegram while waiting for a reply leads to ActiveIdle, silently
+          (if (prevSt = "AwaitStatusResponse") ∧ ¬ delivered.isEmpty ∧ r.st ≠ "ActiveIdle" ∧ r.st ≠ "PassToken" ∧ r.st ≠ "CheckTokenPass" ∧ r.st ≠ "UseToken" ∧ r.st ≠ "AwaitStatusResponse" then
+             some ("C06", s!"unexpected telegram while awaiting a status reply led to {r.st}") else none)]
       -- ---------------------------------------------------------------- state update
       let txEnd : Option Int := r.tx.map fun b => now + (o.p.bits (11 * b.length) : Nat)
       let lastActivity :=
@@ -342,7 +361,7 @@ def oracleStation (want : String) (o : OSt) (op obs : String) : OSt × Fail :=
             | _ => false
            if enteringUse then 0 else if isGap then o.gapPollsThisVisit + 1 else o.gapPollsThisVisit),
         declinedThisVisit := if enteringUse then [] else o.declinedThisVisit }
-      (o', first [c01, c11, c12, c15, c13])
+      (o', first [c01, c11, c12, c15, c13, c06])
     | _, _ => (o, some (want, s!"unparsable observation: {obs}"))
   | _ => (o, none)
 
